@@ -161,7 +161,7 @@ def _api(p: Dict[str, Any], stats: Dict[str, int], shuffled: bool, gate_off: boo
                         ok_ids = sorted([(i, s) for (i, s) in items if s >= thr], key=lambda t: (-t[1], t[0]))[:topk]
                         allowed = {i for i, _ in ok_ids}
                         changed = [kk for kk, rec in _edges(state).items() if before.get(kk) != rec]
-                        allowed_keys = {"%s→%s" % ((a, b) if a <= b else (b, a)): (a, b) for a in allowed for b in allowed}
+                        allowed_keys = {"%s→%s" % ((a, b) if a <= b else (b, a)): (a, b) for a in sorted(allowed) for b in sorted(allowed)}
                         for kk in changed:
                             rec = _edges(state)[kk]
                             if rec["src"] not in allowed or rec["dst"] not in allowed:
